@@ -238,42 +238,37 @@ theorem isWs_ne47 {b : Nat} (h : isWs b = true) : b ≠ 47 := by
   simp only [isWs, Bool.or_eq_true, beq_iff_eq] at h; omega
 
 theorem SAttr.text_last (a : SAttr) (h : a.ok = true) : ∃ b, a.text.getLast? = some b ∧ b ≠ 47 := by
-  simp only [SAttr.ok, Bool.and_eq_true, Bool.not_eq_true', List.all_eq_true] at h
-  obtain ⟨⟨⟨⟨_, _⟩, hkne⟩, hk⟩, hval⟩ := h
+  obtain ⟨_, _, hkne, hk, hval, _, _, _⟩ := SAttr.ok_spec h
   have hkl : ∃ b, a.key.getLast? = some b ∧ b ≠ 47 := by
     cases hg : a.key.getLast? with
-    | none => rw [List.getLast?_eq_none_iff] at hg; simp [hg] at hkne
+    | none => rw [List.getLast?_eq_none_iff] at hg; exact absurd hg hkne
     | some b =>
       refine ⟨b, rfl, ?_⟩
       have := hk b (List.mem_of_getLast? hg)
       simp only [keyByte, Bool.and_eq_true, Bool.not_eq_true', bne_iff_ne, ne_eq] at this
       exact this.1.1.2
   unfold SAttr.text
-  cases hv : a.val with
-  | none =>
-    obtain ⟨b, hb, h47⟩ := hkl
-    exact ⟨b, by simp [SVal.text, List.getLast?_append, hb], h47⟩
-  | dq v =>
-    refine ⟨34, ?_, by decide⟩
-    simp only [SVal.text]
-    rw [List.getLast?_append, List.getLast?_append]; rfl
-  | sq v =>
-    refine ⟨39, ?_, by decide⟩
-    simp only [SVal.text]
-    rw [List.getLast?_append, List.getLast?_append]; rfl
-  | unq v =>
-    rw [hv] at hval
-    cases v with
-    | nil => simp [SVal.ok] at hval
-    | cons c v' =>
-      simp only [SVal.ok, Bool.and_eq_true, bne_iff_ne, ne_eq] at hval
-      cases hg : (c :: v').getLast? with
-      | none => simp at hg
-      | some b =>
-        refine ⟨b, ?_, ?_⟩
-        · simp only [SVal.text]
-          rw [List.getLast?_append, show (61 :: c :: v').getLast? = (c :: v').getLast? by simp, hg]; rfl
-        · intro e; subst e; exact hval.2 hg
+  by_cases hn : a.val = .none
+  · obtain ⟨b, hb, h47⟩ := hkl
+    exact ⟨b, by rw [SAttr.vtext_none hn, List.append_nil, List.getLast?_append, hb]; rfl, h47⟩
+  · rw [SAttr.vtext_some hn]
+    -- the last byte of the value body
+    have hbl : ∃ b, a.val.body.getLast? = some b ∧ b ≠ 47 := by
+      cases hv : a.val with
+      | none => exact absurd hv hn
+      | dq v => exact ⟨34, by simp only [SVal.body]; rw [List.getLast?_append]; rfl, by decide⟩
+      | sq v => exact ⟨39, by simp only [SVal.body]; rw [List.getLast?_append]; rfl, by decide⟩
+      | unq v =>
+        rw [hv] at hval
+        cases v with
+        | nil => simp [SVal.ok] at hval
+        | cons c v' =>
+          simp only [SVal.ok, Bool.and_eq_true, bne_iff_ne, ne_eq] at hval
+          cases hg : (c :: v').getLast? with
+          | none => simp at hg
+          | some b => exact ⟨b, hg, by intro e; subst e; exact hval.2 hg⟩
+    obtain ⟨b, hb, h47⟩ := hbl
+    exact ⟨b, by rw [List.getLast?_append, List.getLast?_append, hb]; rfl, h47⟩
 
 theorem attrsOf_last : ∀ (as : List SAttr), as ≠ [] → (∀ a ∈ as, a.ok = true) →
     ∃ b, (attrsOf as).getLast? = some b ∧ b ≠ 47
